@@ -40,6 +40,7 @@ def load_inventory():
     inv["functions"] = set(inv["functions"])
     inv["module_names"] = {k: set(v) for k, v in inv["module_names"].items()}
     inv["class_names"] = {k: set(v) for k, v in inv["class_names"].items()}
+    inv["nested"] = set(inv.get("nested", []))
     return inv
 
 
@@ -132,14 +133,28 @@ def _fold(node):
 
 
 def _locals_of(fn):
+    """names bound in the function's own scope (nested function scopes excluded)"""
     out = set()
-    for n in ast.walk(fn):
+    a = fn.args
+    for x in a.posonlyargs + a.args + a.kwonlyargs:
+        out.add(x.arg)
+    if a.vararg:
+        out.add(a.vararg.arg)
+    if a.kwarg:
+        out.add(a.kwarg.arg)
+    todo = list(fn.body)
+    while todo:
+        n = todo.pop()
+        if isinstance(n, (ast.FunctionDef, ast.AsyncFunctionDef, ast.ClassDef)):
+            out.add(n.name)
+            continue
+        if isinstance(n, ast.Lambda):
+            continue
         if isinstance(n, ast.Name) and isinstance(n.ctx, (ast.Store, ast.Del)):
             out.add(n.id)
-        elif isinstance(n, ast.arg):
-            out.add(n.arg)
         elif isinstance(n, ast.ExceptHandler) and n.name:
             out.add(n.name)
+        todo.extend(ast.iter_child_nodes(n))
     return out
 
 
@@ -251,6 +266,11 @@ class Normalizer:
     def resolve(self, call, mod, cls, selfname):
         """-> (helper qual, FunctionDef, binding of the first parameter or None, defining module) or None"""
         f = call.func
+        if isinstance(f, ast.Name) and getattr(self, "_local_defs", None) and f.id in self._local_defs:
+            node, qual = self._local_defs[f.id]
+            if qual not in self.inv["nested"]:
+                return qual, node, None, mod
+            return None
         if isinstance(f, ast.Name):
             r = self.repo.resolve(mod, f.id)
             if r is not None and r.kind == "func" and r.mod is mod:
@@ -348,6 +368,8 @@ class Normalizer:
         tag = self.counter
         loads, renames, prelude = {}, {}, []
         for p, v in bind.items():
+            if p == keep and isinstance(v, ast.Name) and v.id == p:
+                continue          # identity binding: the caller's variable of the same name carries the value in
             if p not in stored and (_is_simple(v) or (uses.get(p, 0) <= 1 and not _has(v, ast.Call))):
                 loads[p] = v
                 continue
@@ -398,7 +420,8 @@ class Normalizer:
                 if r is None:
                     continue
                 hq, hnode, first, hmod = r
-                if not self.is_new_function(hq) or hq in fctx["stack"] or hmod is not fctx["mod"]:
+                if (not self.is_new_function(hq) and ".<nested>" not in hq and hq not in getattr(self, "_nested_quals", ())) \
+                        or hq in fctx["stack"] or hmod is not fctx["mod"]:
                     continue
                 if id(c) in fctx["skip"]:
                     continue
@@ -425,10 +448,21 @@ class Normalizer:
                 break
             try:
                 keep = None
-                if isinstance(s, ast.Assign) and s.value is c and len(s.targets) == 1 and isinstance(s.targets[0], ast.Name) \
-                        and not any(isinstance(n, ast.Name) and n.id == s.targets[0].id for a in list(c.args) + [k.value for k in c.keywords]
-                                    for n in ast.walk(a)):
-                    keep = s.targets[0].id      # the callee's local of the same name IS the target: no rename, no copy
+                if isinstance(s, ast.Assign) and s.value is c and len(s.targets) == 1 and isinstance(s.targets[0], ast.Name):
+                    tname = s.targets[0].id
+                    hp = [x.arg for x in hnode.args.posonlyargs + hnode.args.args]
+                    if first is not None and first != "unbound":
+                        hp = hp[1:]
+                    mentions = []
+                    for i_, a in enumerate(c.args):
+                        if any(isinstance(n, ast.Name) and n.id == tname for n in ast.walk(a)):
+                            mentions.append(isinstance(a, ast.Name) and i_ < len(hp) and hp[i_] == tname)
+                    for k in c.keywords:
+                        if any(isinstance(n, ast.Name) and n.id == tname for n in ast.walk(k.value)):
+                            mentions.append(isinstance(k.value, ast.Name) and k.arg == tname)
+                    if all(mentions):
+                        # `x = h(..)` / `x = h(x)` with the parameter also called x: the callee's x IS the target
+                        keep = tname
                 prelude, body, single = self.instantiate(c, hq, hnode, first, fctx["names"], keep)
                 res = self.splice(s, c, prelude, body, single, fctx, hq)
             except Bail as e:
@@ -532,7 +566,39 @@ class Normalizer:
         selfname = params[0] if (cls is not None and params and self._kind(fn) in ("plain", "other", "class")) else None
         fctx = {"mod": mod, "cls": cls, "self": selfname, "stack": [qual], "names": _locals_of(fn), "skip": set(),
                 "qual": qual, "budget": MAX_INLINE_PER_FN, "inlined": set()}
+        # nested function definitions of this function (closures): a NEW one is transparent like any new helper; its free
+        # variables are the enclosing function's own names, so no renaming is needed for them
+        self._local_defs, self._nested_quals = {}, set()
+        for n in ast.walk(fn):
+            if n is not fn and isinstance(n, (ast.FunctionDef, ast.AsyncFunctionDef)):
+                q = f"{qual}.{n.name}"
+                # only direct children scopes (defined in fn's own body, at any statement depth but not inside another def)
+                self._local_defs[n.name] = (n, q)
+                if q not in self.inv["nested"]:
+                    self._nested_quals.add(q)
         fn.body = self.rewrite_block(fn.body, fctx)
+        # a new nested function that is no longer referenced (every call was inlined) is dropped
+        for name, (node, q) in list(self._local_defs.items()):
+            if q not in self._nested_quals or q not in fctx["inlined"]:
+                continue
+            used = False
+            todo = [x for x in fn.body]
+            while todo:
+                x = todo.pop()
+                if x is node:
+                    continue
+                if isinstance(x, ast.Name) and x.id == name:
+                    used = True
+                    break
+                todo.extend(ast.iter_child_nodes(x))
+            if not used:
+                for blk in [fn.body] + [getattr(x, f) for x in ast.walk(fn) for f in ("body", "orelse", "finalbody")
+                                         if isinstance(getattr(x, f, None), list)]:
+                    if node in blk:
+                        blk.remove(node)
+                        if not blk:
+                            blk.append(ast.copy_location(ast.Pass(), node))
+        self._local_defs, self._nested_quals = {}, set()
         return fctx["inlined"]
 
     def substitute_consts(self, mod, cls, fn, mconsts, cconsts):
@@ -615,13 +681,19 @@ def apply(repo):
                 pass
         nz.dropped.append(hq)
     nz.alias_subst = 0
+    nz.spelling_changes = 0
     if os.environ.get("BSA_ALIAS", "1") != "0":
         seen = set()
         for fi in repo.funcs.values():
             if id(fi.node) in seen:
                 continue
             seen.add(id(fi.node))
-            nz.alias_subst += propagate_aliases(fi.node)
+            nz.spelling_changes += spelling(fi.node)
+            k = propagate_aliases(fi.node)
+            nz.alias_subst += k
+            if k:
+                nz.spelling_changes += spelling(fi.node)      # literals moved into place may enable U1/U3/U5
+            nz.alias_subst += propagate_single_use(fi.node)
     nz.shape_changes = 0
     if os.environ.get("BSA_SHAPE", "1") != "0":
         seen = set()
@@ -847,7 +919,10 @@ def propagate_aliases(fn):
     def scan(stmts, depth_ok):
         for i, s in enumerate(stmts):
             if isinstance(s, ast.Assign) and len(s.targets) == 1 and isinstance(s.targets[0], ast.Name) \
-                    and isinstance(s.value, ast.Constant) and type(s.value.value) in (int, bytes, str) \
+                    and (isinstance(s.value, ast.Constant) and type(s.value.value) in (int, bytes, str)
+                         or isinstance(s.value, ast.Tuple) and 1 <= len(s.value.elts) <= 8 and all(
+                             isinstance(e, ast.Constant) or (isinstance(e, ast.Name) and stores.get(e.id, 0) == 0 and e.id not in params)
+                             for e in s.value.elts)) \
                     and stores.get(s.targets[0].id) == 1 and s.targets[0].id not in params:
                 # a local bound once to a literal stands for the literal
                 name = s.targets[0].id
@@ -855,6 +930,28 @@ def propagate_aliases(fn):
                 uses_later = sum(1 for t in later for n in ast.walk(t) if isinstance(n, ast.Name) and n.id == name and isinstance(n.ctx, ast.Load))
                 uses_all = sum(1 for n in ast.walk(fn) if isinstance(n, ast.Name) and n.id == name and isinstance(n.ctx, ast.Load))
                 if uses_all and uses_later == uses_all:
+                    cands[name] = (s.value, later)
+            elif isinstance(s, ast.Assign) and len(s.targets) == 1 and isinstance(s.targets[0], ast.Name) \
+                    and isinstance(s.value, (ast.Compare, ast.BoolOp, ast.UnaryOp)) and stores.get(s.targets[0].id) == 1 \
+                    and s.targets[0].id not in params \
+                    and not _has(s.value, (ast.Call, ast.Lambda, ast.ListComp, ast.SetComp, ast.DictComp, ast.GeneratorExp,
+                                           ast.NamedExpr, ast.Await, ast.Yield, ast.YieldFrom, ast.Subscript)):
+                # P7: a boolean local over names/attribute chains that the function never stores
+                name = s.targets[0].id
+                free_ok = True
+                for n in ast.walk(s.value):
+                    if isinstance(n, ast.Name) and stores.get(n.id, 0) != 0 and n.id not in params:
+                        free_ok = False
+                    if isinstance(n, ast.Name) and n.id in params and stores.get(n.id, 0) != 0:
+                        free_ok = False
+                    if isinstance(n, ast.Attribute):
+                        t = _chain_text(n)
+                        if t is None or any(t == a or a.startswith(t + ".") or t.startswith(a + ".") for a in attr_stores):
+                            free_ok = False
+                later = stmts[i + 1:]
+                uses_later = sum(1 for t in later for n in ast.walk(t) if isinstance(n, ast.Name) and n.id == name and isinstance(n.ctx, ast.Load))
+                uses_all = sum(1 for n in ast.walk(fn) if isinstance(n, ast.Name) and n.id == name and isinstance(n.ctx, ast.Load))
+                if free_ok and uses_all and uses_later == uses_all:
                     cands[name] = (s.value, later)
             elif isinstance(s, ast.Assign) and len(s.targets) == 1 and isinstance(s.targets[0], ast.Name) \
                     and isinstance(s.value, ast.Attribute):
@@ -897,4 +994,206 @@ def propagate_aliases(fn):
         for i, t in enumerate(later):
             later[i] = ast.fix_missing_locations(R().visit(t))
         # `later` is a slice copy: write the rewritten statements back into the enclosing block
+    return n_sub
+
+
+# =====================================================================================================
+# Further spelling-level passes (all behaviour preserving; evaluation order of effects unchanged):
+#   U1  `for x in (c1, .., cn): body` over a literal tuple/list of at most 8 simple elements, body without
+#       break/continue/else                                   -> the body once per element, x replaced
+#   U2  getattr(o, "name") / setattr(o, "name", v) with a literal name -> o.name / o.name = v
+#   U3  any(E for v in (c1..cn)) / all(...) over a literal tuple   -> E[c1] or .. or E[cn]  /  and
+#   U4  a, b = (e1, e2) with matching literal tuple             -> a = e1; b = e2   (only when no target
+#       occurs in a later element, so the order of binding does not matter)
+#   U5  {k1: v1, ..}[kc] with literal keys and a literal subscript -> vc
+#   U6  "..{}..".format(a, b) with only automatic/indexed plain fields -> the equivalent f-string
+#   P6  a local bound once to any expression and used exactly once, as the (possibly negated) test of the
+#       immediately following `if`                             -> the expression moves into the test
+#   P7  a local bound once to a call-free expression over names/attributes that are never stored in the
+#       function                                               -> replaced by that expression at its uses
+# =====================================================================================================
+_SIMPLE_ELT = (ast.Name, ast.Constant, ast.Attribute)
+
+
+class _Rename(ast.NodeTransformer):
+    def __init__(self, name, value):
+        self.name, self.value = name, value
+
+    def visit_Name(self, n):
+        if n.id == self.name and isinstance(n.ctx, ast.Load):
+            return ast.copy_location(copy.deepcopy(self.value), n)
+        return n
+
+
+class Spelling(ast.NodeTransformer):
+    def __init__(self):
+        self.changes = 0
+
+    # U2 / U3 / U5 / U6 on expressions
+    def visit_Call(self, n):
+        self.generic_visit(n)
+        if isinstance(n.func, ast.Name) and n.func.id == "getattr" and len(n.args) == 2 and not n.keywords \
+                and isinstance(n.args[1], ast.Constant) and isinstance(n.args[1].value, str) and n.args[1].value.isidentifier():
+            self.changes += 1
+            return ast.copy_location(ast.Attribute(value=n.args[0], attr=n.args[1].value, ctx=ast.Load()), n)
+        if isinstance(n.func, ast.Name) and n.func.id in ("any", "all") and len(n.args) == 1 and not n.keywords \
+                and isinstance(n.args[0], (ast.GeneratorExp, ast.ListComp)) and len(n.args[0].generators) == 1:
+            g = n.args[0].generators[0]
+            if isinstance(g.target, ast.Name) and not g.ifs and not g.is_async and isinstance(g.iter, (ast.Tuple, ast.List)) \
+                    and 1 <= len(g.iter.elts) <= 8 and all(isinstance(e, _SIMPLE_ELT) for e in g.iter.elts):
+                vals = [_Rename(g.target.id, e).visit(copy.deepcopy(n.args[0].elt)) for e in g.iter.elts]
+                self.changes += 1
+                op = ast.Or() if n.func.id == "any" else ast.And()
+                inner = vals[0] if len(vals) == 1 else ast.BoolOp(op=op, values=vals)
+                # any()/all() return a bool; the tests that consume them only look at the truth value
+                return ast.fix_missing_locations(ast.copy_location(inner, n))
+        if isinstance(n.func, ast.Attribute) and n.func.attr == "format" and isinstance(n.func.value, ast.Constant) \
+                and isinstance(n.func.value.value, str) and not n.keywords and not any(isinstance(a, ast.Starred) for a in n.args):
+            import string
+            try:
+                fields = list(string.Formatter().parse(n.func.value.value))
+            except ValueError:
+                return n
+            parts, auto, ok = [], 0, True
+            for lit, name, spec, conv in fields:
+                if lit:
+                    parts.append(ast.Constant(value=lit))
+                if name is None:
+                    continue
+                if spec or conv:
+                    ok = False
+                    break
+                if name == "":
+                    idx, auto = auto, auto + 1
+                elif name.isdigit():
+                    idx = int(name)
+                else:
+                    ok = False
+                    break
+                if idx >= len(n.args):
+                    ok = False
+                    break
+                parts.append(ast.FormattedValue(value=copy.deepcopy(n.args[idx]), conversion=-1, format_spec=None))
+            if ok:
+                self.changes += 1
+                return ast.fix_missing_locations(ast.copy_location(ast.JoinedStr(values=parts), n))
+        return n
+
+    def visit_Subscript(self, n):
+        self.generic_visit(n)
+        if isinstance(n.value, ast.Dict) and isinstance(n.ctx, ast.Load) and isinstance(n.slice, ast.Constant) \
+                and all(isinstance(k, ast.Constant) for k in n.value.keys):
+            for k, v in zip(n.value.keys, n.value.values):
+                if k.value == n.slice.value and type(k.value) is type(n.slice.value):
+                    self.changes += 1
+                    return ast.copy_location(v, n)
+        return n
+
+    # statements
+    def block(self, stmts):
+        out = []
+        for s in stmts:
+            s = self.visit(s)
+            for fld in ("body", "orelse", "finalbody"):
+                b = getattr(s, fld, None)
+                if isinstance(b, list) and b and isinstance(b[0], ast.stmt) and not isinstance(s, (ast.FunctionDef, ast.AsyncFunctionDef, ast.ClassDef)):
+                    setattr(s, fld, self.block(b))
+            if isinstance(s, ast.Try):
+                for h in s.handlers:
+                    h.body = self.block(h.body)
+            out.extend(self.stmt(s))
+        return out
+
+    def stmt(self, s):
+        # U2 setattr
+        if isinstance(s, ast.Expr) and isinstance(s.value, ast.Call) and isinstance(s.value.func, ast.Name) and s.value.func.id == "setattr" \
+                and len(s.value.args) == 3 and not s.value.keywords and isinstance(s.value.args[1], ast.Constant) \
+                and isinstance(s.value.args[1].value, str) and s.value.args[1].value.isidentifier():
+            self.changes += 1
+            tgt = ast.Attribute(value=s.value.args[0], attr=s.value.args[1].value, ctx=ast.Store())
+            return [ast.fix_missing_locations(ast.copy_location(ast.Assign(targets=[tgt], value=s.value.args[2], lineno=s.lineno), s))]
+        # U4 tuple unpack of a literal tuple
+        if isinstance(s, ast.Assign) and len(s.targets) == 1 and isinstance(s.targets[0], (ast.Tuple, ast.List)) \
+                and isinstance(s.value, (ast.Tuple, ast.List)) and len(s.targets[0].elts) == len(s.value.elts) \
+                and all(isinstance(t, ast.Name) for t in s.targets[0].elts) and not any(isinstance(e, ast.Starred) for e in s.value.elts):
+            names = {t.id for t in s.targets[0].elts}
+            if not any(isinstance(x, ast.Name) and x.id in names for e in s.value.elts for x in ast.walk(e)) \
+                    and not any(isinstance(x, ast.Call) for e in s.value.elts for x in ast.walk(e)):
+                self.changes += 1
+                return [ast.fix_missing_locations(ast.copy_location(ast.Assign(targets=[t], value=e, lineno=s.lineno), s))
+                        for t, e in zip(s.targets[0].elts, s.value.elts)]
+        # U7 counting comprehension: x += sum(1 for v in it if c)  ->  for v in it: if c: x += 1
+        if isinstance(s, ast.AugAssign) and isinstance(s.op, ast.Add) and isinstance(s.value, ast.Call) and isinstance(s.value.func, ast.Name) \
+                and s.value.func.id == "sum" and len(s.value.args) == 1 and not s.value.keywords \
+                and isinstance(s.value.args[0], (ast.GeneratorExp, ast.ListComp)) and len(s.value.args[0].generators) == 1 \
+                and isinstance(s.value.args[0].elt, ast.Constant) and s.value.args[0].elt.value == 1:
+            g = s.value.args[0].generators[0]
+            if not g.is_async and not _has(s.target, ast.Call):
+                inc = ast.AugAssign(target=copy.deepcopy(s.target), op=ast.Add(), value=ast.Constant(value=1))
+                body = [inc]
+                for c in reversed(g.ifs):
+                    body = [ast.If(test=c, body=body, orelse=[])]
+                loop = ast.For(target=g.target, iter=g.iter, body=body, orelse=[], lineno=s.lineno)
+                self.changes += 1
+                return [ast.fix_missing_locations(ast.copy_location(loop, s))]
+        # U1 unroll
+        if isinstance(s, ast.For) and isinstance(s.target, ast.Name) and not s.orelse and isinstance(s.iter, (ast.Tuple, ast.List)) \
+                and 1 <= len(s.iter.elts) <= 8 and all(isinstance(e, _SIMPLE_ELT) for e in s.iter.elts) \
+                and not _has(s.body, (ast.Break, ast.Continue, ast.Return)) \
+                and not any(isinstance(x, ast.Name) and x.id == s.target.id and isinstance(x.ctx, ast.Store) for b in s.body for x in ast.walk(b)):
+            out = []
+            for e in s.iter.elts:
+                for b in s.body:
+                    nb = _Rename(s.target.id, e).visit(copy.deepcopy(b))
+                    out.append(ast.fix_missing_locations(nb))
+            self.changes += 1
+            # the unrolled copies may expose getattr/setattr with literal names
+            return self.block(out)
+        return [s]
+
+
+def spelling(fn):
+    sp = Spelling()
+    fn.body = sp.block(fn.body)
+    return sp.changes
+
+
+def propagate_single_use(fn):
+    """P6: `x = E` immediately followed by `if x:` / `if not x:` where x has no other use -> `if E:`."""
+    n_sub = 0
+    loads, stores = {}, {}
+    for n in ast.walk(fn):
+        if isinstance(n, ast.Name):
+            d = loads if isinstance(n.ctx, ast.Load) else stores
+            d[n.id] = d.get(n.id, 0) + 1
+    params = {a.arg for a in fn.args.posonlyargs + fn.args.args + fn.args.kwonlyargs}
+
+    def scan(stmts):
+        nonlocal n_sub
+        i = 0
+        while i < len(stmts) - 1:
+            s, nxt = stmts[i], stmts[i + 1]
+            if isinstance(s, ast.Assign) and len(s.targets) == 1 and isinstance(s.targets[0], ast.Name) and isinstance(nxt, ast.If):
+                name = s.targets[0].id
+                t = nxt.test
+                inner = t.operand if isinstance(t, ast.UnaryOp) and isinstance(t.op, ast.Not) else t
+                if isinstance(inner, ast.Name) and inner.id == name and loads.get(name) == 1 and stores.get(name) == 1 \
+                        and name not in params and not isinstance(s.value, (ast.Yield, ast.YieldFrom, ast.Await)):
+                    if inner is t:
+                        nxt.test = s.value
+                    else:
+                        t.operand = s.value
+                    del stmts[i]
+                    n_sub += 1
+                    continue
+            i += 1
+        for s in stmts:
+            for fld in ("body", "orelse", "finalbody"):
+                b = getattr(s, fld, None)
+                if isinstance(b, list) and not isinstance(s, (ast.FunctionDef, ast.AsyncFunctionDef, ast.ClassDef)):
+                    scan(b)
+            if isinstance(s, ast.Try):
+                for h in s.handlers:
+                    scan(h.body)
+    scan(fn.body)
     return n_sub
